@@ -247,14 +247,36 @@ func runC01case(cs c01case) c01obs {
 		o.errs = append(o.errs, "open:"+errClass(err))
 		return o
 	}
+	var bopts []util.Option
+	if !cs.strip {
+		bopts = append(bopts, opoptions.WithNoStripPrompt())
+	}
+	if cs.exact {
+		bopts = append(bopts, opoptions.WithExactMatchInput())
+	}
+	if cs.seed%3 == 1 {
+		// the batch API: one SendCommands call for the whole sequence, same per-operation options
+		var cmds []string
+		for _, c := range cs.cmds {
+			cmds = append(cmds, c.cmd)
+		}
+		mr, err := d.SendCommands(cmds, bopts...)
+		if mr != nil {
+			for _, r := range mr.Responses {
+				o.errs = append(o.errs, "nil")
+				o.results = append(o.results, r.Result)
+			}
+		}
+		if err != nil {
+			o.errs = append(o.errs, errClass(err))
+			o.results = append(o.results, "")
+		}
+	}
 	for _, c := range cs.cmds {
-		var opts []util.Option
-		if !cs.strip {
-			opts = append(opts, opoptions.WithNoStripPrompt())
+		if cs.seed%3 == 1 {
+			break
 		}
-		if cs.exact {
-			opts = append(opts, opoptions.WithExactMatchInput())
-		}
+		opts := bopts
 		r, err := d.SendCommand(c.cmd, opts...)
 		o.errs = append(o.errs, errClass(err))
 		if err != nil {
